@@ -184,7 +184,11 @@ impl CommonHeader {
         }
 
         // Payload size is u16, so all values are valid
-        // Next header is a u8, so all values are valid
+
+        // `Other(k)` with an assigned `k` would be decoded as the assigned protocol number.
+        if ProtocolNumber::from(u8::from(self.next_header)) != self.next_header {
+            return Err("next_header must not be a non canonical ProtocolNumber::Other".into());
+        }
 
         Ok(())
     }
